@@ -41,7 +41,7 @@ def _drive(args):
         path = os.path.join(wd, 'real-%d-%d.bin' % (os.getpid(), tid))
         fobj = open(path, 'w+b')
     try:
-        events, data = drv.vbs_write_events(recs, blk, tuple(fins), 'class', fobj)
+        events, data = drv.vbs_write_events(recs, blk, tuple(fins), 'class2' if tid % 3 == 2 else 'class', fobj)
     except BaseException as ex:  # noqa
         events = [drv.ev('write', len(x), '', x) for x in recs] + [drv.ev('fin', 1), drv.ev('file', 0, '', b'\xff')]
         events[-1]['_observed'] = drv.exc_outcome(ex)
@@ -52,9 +52,10 @@ def _drive(args):
             os.unlink(path)
     events += drv.read_events(data, blk)[0]
     return {'tid': tid, 'blk': blk, 'strict': True, 'loc': False, 'events': events,
-            '_desc': '%s writer on %s: write %s then %s' % ('blocked' if blk else 'unblocked',
-                                                           'real file' if onfile else 'BytesIO',
-                                                           [len(x) for x in recs], fins),
+            '_desc': '%s writer on %s: write %s then %s%s' % ('blocked' if blk else 'unblocked',
+                                                             'real file' if onfile else 'BytesIO',
+                                                             [len(x) for x in recs], fins,
+                                                             ' (each exit a separate with-block)' if tid % 3 == 2 else ''),
             '_fins': fins}
 
 
